@@ -14,11 +14,11 @@ MACROS = {
     "keyof": "lambda a: (nodes[a].id, nodes[a].tags['SN'][1], int(nodes[a].tags['SO'][1]), int(nodes[a].tags['SO'][1]) + int(nodes[a].tags['LN'][1]))",
 }
 
-A_INV = ("forall(lambda j, p: implies(0 <= j < {jmax} and 0 <= p < len(tr(j)) and (j < {jfull} or p < {pmax}), keyof(tr(j)[p]) in out_dict and "
-         "0 <= wpos[(j, p)] < len(out_dict[keyof(tr(j)[p])]) and out_dict[keyof(tr(j)[p])][wpos[(j, p)]] == gaf_file.offs[j]))")
+A_INV = ("forall(lambda j, p: implies(0 <= j < {jmax} and 0 <= p < NT(j) and (j < {jfull} or p < {pmax}), K(j, p) in out_dict and "
+         "0 <= wpos[(j, p)] < len(out_dict[K(j, p)]) and out_dict[K(j, p)][wpos[(j, p)]] == gaf_file.offs[j]))")
 B_INV = ("forall([KEY, INT], lambda key, m: implies(key in out_dict and 0 <= m < len(out_dict[key]), "
-         "0 <= src_j[(key, m)] < {jmax} and 0 <= src_p[(key, m)] < len(tr(src_j[(key, m)])) and "
-         "(src_j[(key, m)] < {jfull} or src_p[(key, m)] < {pmax}) and key == keyof(tr(src_j[(key, m)])[src_p[(key, m)]]) and "
+         "0 <= src_j[(key, m)] < {jmax} and 0 <= src_p[(key, m)] < NT(src_j[(key, m)]) and "
+         "(src_j[(key, m)] < {jfull} or src_p[(key, m)] < {pmax}) and key == K(src_j[(key, m)], src_p[(key, m)]) and "
          "out_dict[key][m] == gaf_file.offs[src_j[(key, m)]]))")
 NONEMPTY = "forall(KEY, lambda key: implies(key in out_dict, len(out_dict[key]) >= 1))"
 
@@ -37,6 +37,7 @@ def register(reg):
         ghost=dict(wpos=MapT(J2, INT), src_j=MapT(KM, INT), src_p=MapT(KM, INT)),
         locals=dict(out_dict=DictT(Key, ListT(INT)), alignment=LINE),
         spec_funcs=MACROS,
+        defs={"K": ([INT, INT], Key, "lambda j, p: keyof(tr(j)[p])"), "NT": ([INT], INT, "lambda j: len(tr(j))")},
         requires=io_c.reader_wf("gaf_file") + [
             "gaf_file.pos == 0",
             "forall(lambda j: implies(0 <= j < len(gaf_file.lines), len(fields_of(rstrip(gaf_file.lines[j]))) >= 6))",
@@ -58,14 +59,17 @@ def register(reg):
                 "every-traversed-node-lists-the-offset": A_INV.format(jmax="gaf_file.pos", jfull="gaf_file.pos - 1", pmax="it2"),
                 "every-listed-offset-is-a-traversing-record": B_INV.format(jmax="gaf_file.pos", jfull="gaf_file.pos - 1", pmax="it2"),
                 "no-empty-entry": NONEMPTY,
+                "alignment": "same(alignment, tr(gaf_file.pos - 1)) and len(alignment) == NT(gaf_file.pos - 1) and offset == gaf_file.offs[gaf_file.pos - 1]",
             }),
         },
         ghost_at={
-            "after:out_dict[": "wpos[(gaf_file.pos - 1, it2 - 1)] = len(out_dict[keyof(a)]) - 1\n"
-                               "src_j[(keyof(a), len(out_dict[keyof(a)]) - 1)] = gaf_file.pos - 1\n"
-                               "src_p[(keyof(a), len(out_dict[keyof(a)]) - 1)] = it2 - 1",
+            "after:out_dict[": "wpos[(gaf_file.pos - 1, it2 - 1)] = len(out_dict[K(gaf_file.pos - 1, it2 - 1)]) - 1\n"
+                               "src_j[(K(gaf_file.pos - 1, it2 - 1), len(out_dict[K(gaf_file.pos - 1, it2 - 1)]) - 1)] = gaf_file.pos - 1\n"
+                               "src_p[(K(gaf_file.pos - 1, it2 - 1), len(out_dict[K(gaf_file.pos - 1, it2 - 1)]) - 1)] = it2 - 1",
         },
-        assert_at={"before:for a in alignment": {"alignment-is-tr": "alignment == tr(gaf_file.pos - 1)", "offset-before-read": "offset == gaf_file.offs[gaf_file.pos - 1]"}},
+        assert_at={"before:out_dict[": {"node-known": "a in nodes and 'SN' in nodes[a].tags and 'SO' in nodes[a].tags and 'LN' in nodes[a].tags",
+                                   "key-is-K": "keyof(a) == K(gaf_file.pos - 1, it2 - 1)"},
+                   "before:for a in alignment": {"alignment-is-tr": "same(alignment, tr(gaf_file.pos - 1))", "alignment-len": "len(alignment) == NT(gaf_file.pos - 1)", "offset-before-read": "offset == gaf_file.offs[gaf_file.pos - 1]"}},
         ensures={
             "all-records-read": "gaf_file.pos == len(gaf_file.lines)",
             "entry-lists-offset-if-record-traverses-node": A_INV.format(jmax="len(gaf_file.lines)", jfull="len(gaf_file.lines)", pmax="0"),
